@@ -5,10 +5,12 @@
    [monitor m c init sinit ops] (Model/HaSyncSpec.v) runs the Model of the HA sync message layer on
    the operation list [ops] — any interleaving of session adds/updates/deletes on the active,
    broadcast-loop iterations, heartbeats, full syncs, stream attaches, deliveries and disconnects,
-   for any queue capacities [c] — and feeds every (operation, observation) to the trace monitor the
+   failed full syncs and restarts of the active, for any queue capacities [c]; a session is an id and
+   a record with one value per field of ha.SessionState (generated list Model/HaSyncFields.v) — and
+   feeds every (operation, observation) to the trace monitor the
    harness also runs on the real code, restricted to the clauses selected by [m]. *)
 From Coq Require Import NArith List.
-From Verif Require Import Base.Check Model.HaSync Model.HaSyncSpec Proofs.HaSyncProofs.
+From Verif Require Import Base.Check Model.HaSyncFields Model.HaSync Model.HaSyncSpec Proofs.HaSyncProofs.
 Import ListNotations.
 Local Open Scope N_scope.
 
@@ -22,12 +24,32 @@ Theorem C13_after_full_sync_equal : C13_clause 0.
 Proof. exact mon_after_full_sync_equal. Qed.
 Print Assumptions C13_after_full_sync_equal.
 
+(* from EVERY state, reachable or not: whatever the standby held, after the full sync it holds the
+   active's records ([norm] is the identity on a record that has exactly the struct's fields, see
+   C13_record_roundtrip; every record of a reachable state has) *)
 Theorem C13_full_sync_copies_snapshot : forall c s,
   lnk s <> LStreaming ->
-  forall id, lookup (sby (nxt c s FullSync)) id = lookup (act s) id /\
-             lookup (rcv (nxt c s FullSync)) id = lookup (act s) id.
+  forall id, lookup (sby (nxt c s FullSync)) id = option_map norm (lookup (act s) id) /\
+             lookup (rcv (nxt c s FullSync)) id = option_map norm (lookup (act s) id).
 Proof. exact full_sync_copies_snapshot. Qed.
 Print Assumptions C13_full_sync_copies_snapshot.
+
+(* the JSON round trip of a session record (encoding/json with the struct's omitempty tags, decoded
+   into a fresh SessionState) is the identity on every record: a field omitted because it is zero
+   comes back as zero *)
+Theorem C13_record_roundtrip : forall r, length r = nf -> wire r = r.
+Proof. exact record_roundtrip. Qed.
+Print Assumptions C13_record_roundtrip.
+
+Theorem C13_record_roundtrip_total : forall r, wire r = norm r /\ length (norm r) = nf /\ norm (norm r) = norm r.
+Proof. exact record_roundtrip_total. Qed.
+Print Assumptions C13_record_roundtrip_total.
+
+(* ... which depends on decoding into a FRESH struct: decoding the same bytes into the record already
+   held would keep every omitted field's old value *)
+Example C13_decode_into_old_record_differs :
+  dec_into (repeat 1 nf) (enc fields zero_rec) <> zero_rec /\ wire zero_rec = zero_rec.
+Proof. exact merge_decode_differs. Qed.
 
 (* (1) changes leave the pending queue in push order, reach the standby in the order they entered
    the stream, each delivery changes the standby's store by exactly that message and nothing but
@@ -35,6 +57,30 @@ Print Assumptions C13_full_sync_copies_snapshot.
 Theorem C13_stream_applies_in_order : C13_clause 1.
 Proof. exact mon_stream_applies_in_order. Qed.
 Print Assumptions C13_stream_applies_in_order.
+
+(* (1, record by record, from EVERY state) an add/update that reaches the standby REPLACES the record
+   stored under its id — in the store and in the received map — by the pushed one, whatever the old
+   record was and whatever fields went back to zero, and touches no other session; a delete removes
+   exactly that session; the session manager's record enters the active's store as given *)
+Theorem C13_update_replaces_record : forall c s id u r sq tl,
+  lnk s = LStreaming -> cq s = MPut id u r sq :: tl ->
+  let s' := nxt c s Deliver in
+  lookup (sby s') id = Some (norm r) /\ lookup (rcv s') id = Some (norm r) /\
+  (forall j, j <> id -> lookup (sby s') j = lookup (sby s) j /\ lookup (rcv s') j = lookup (rcv s) j).
+Proof. exact deliver_replaces_record. Qed.
+Print Assumptions C13_update_replaces_record.
+
+Theorem C13_delete_removes_record : forall c s id sq tl,
+  lnk s = LStreaming -> cq s = MDel id sq :: tl ->
+  let s' := nxt c s Deliver in
+  lookup (sby s') id = None /\ lookup (rcv s') id = None /\
+  (forall j, j <> id -> lookup (sby s') j = lookup (sby s) j /\ lookup (rcv s') j = lookup (rcv s) j).
+Proof. exact deliver_delete_removes. Qed.
+Print Assumptions C13_delete_removes_record.
+
+Theorem C13_put_stores_record : forall c s id r, lookup (act (nxt c s (Put id r))) id = Some (norm r).
+Proof. exact put_stores_record. Qed.
+Print Assumptions C13_put_stores_record.
 
 (* (3) ... but "every change pushed while the stream is connected is applied" fails when the client
    channel (100) or the pending queue (1000) is full: the change is dropped.  Known finding K13c *)
@@ -66,6 +112,52 @@ Theorem C13_quiescent_tables_equal : forall c ops,
 Proof. exact quiescent_tables_equal. Qed.
 Print Assumptions C13_quiescent_tables_equal.
 
+(* the convergence clause under the WEAKER guard [healed]: a change lost on the stream (broadcast to
+   nobody between snapshot and attach, dropped on the full client channel) no longer matters once a
+   later full sync completed, and nothing lost before a restart of the active matters after it; only
+   a push refused by the full pending queue (the store changed, nothing was queued) stays harmful
+   until the active restarts — and it really is (C13_refused_push_not_repaired: a full sync followed
+   by the stream re-applies the older queued message) *)
+Theorem C13_quiescent_tables_equal_healed : forall c ops,
+  healed c init ops = true ->
+  let s := run c init ops in
+  lnk s = LStreaming -> pend s = [] -> cq s = [] -> forall id, lookup (sby s) id = lookup (act s) id.
+Proof. exact quiescent_tables_equal_healed. Qed.
+Print Assumptions C13_quiescent_tables_equal_healed.
+
+Theorem C13_lossless_implies_healed : forall c ops, lossless c init ops = true -> healed c init ops = true.
+Proof. exact lossless_healed. Qed.
+Print Assumptions C13_lossless_implies_healed.
+
+Theorem C13_refused_push_not_repaired : exists c ops,
+  monitor (only 2) c init sinit ops = Some 2 /\ taint_run c init Clean ops = PushLoss.
+Proof. exact quiescent_convergence_refuted_push. Qed.
+Print Assumptions C13_refused_push_not_repaired.
+
+(* what the guards mean, exactly: the three ways a change is lost (ghost markers of the Model), in
+   terms of the state and the real capacities — a push when the pending queue holds c_pcap (1000)
+   messages; a broadcast of a change into a client channel holding c_ccap (100 + the one in the
+   handler's hands) messages; a broadcast of a change between a completed full sync and the attach —
+   and the queues never exceed their capacities *)
+Theorem C13_push_refused_exactly_when : forall c s o,
+  In 1304 (mks c s o) <-> is_push o = true /\ c_pcap c <= len (pend s).
+Proof. exact marker_1304_exact. Qed.
+Print Assumptions C13_push_refused_exactly_when.
+
+Theorem C13_stream_drop_exactly_when : forall c s o,
+  In 1303 (mks c s o) <-> o = Broadcast /\ pend s <> [] /\ lnk s = LStreaming /\ c_ccap c <= len (cq s).
+Proof. exact marker_1303_exact. Qed.
+Print Assumptions C13_stream_drop_exactly_when.
+
+Theorem C13_gap_loss_exactly_when : forall c s o,
+  In 1302 (mks c s o) <-> o = Broadcast /\ pend s <> [] /\ lnk s = LSynced.
+Proof. exact marker_1302_exact. Qed.
+Print Assumptions C13_gap_loss_exactly_when.
+
+Theorem C13_queues_bounded : forall c ops, bounded c (run c init ops).
+Proof. exact queues_bounded. Qed.
+Print Assumptions C13_queues_bounded.
+
 (* all clauses, as the harness runs the monitor, inside the guard *)
 Theorem C13_all_clauses_partial : forall c ops,
   lossless c init ops = true -> monitor (fun _ => true) c init sinit ops = None.
@@ -79,10 +171,20 @@ Theorem C13_monitor_is_harness_check : forall m c ops s ss i,
 Proof. exact monitor_is_check. Qed.
 Print Assumptions C13_monitor_is_harness_check.
 
-(* non-vacuity: a lossless history (adds, update, deletes while away, reconnection) ending quiescent
-   with a non-empty table *)
+(* non-vacuity: a lossless history (adds, an update that resets every other field, a heartbeat, deletes
+   while away, a failed full sync, reconnection) ending quiescent with a non-empty table *)
 Example C13_guard_satisfiable :
   lossless cfg_real init h_ok = true /\ lnk (run cfg_real init h_ok) = LStreaming /\
   pend (run cfg_real init h_ok) = [] /\ cq (run cfg_real init h_ok) = [] /\
-  sby (run cfg_real init h_ok) = [Some 2; None; Some 5; None].
+  sby (run cfg_real init h_ok) = [Some rH; None; Some rB; None].
 Proof. exact h_ok_facts. Qed.
+
+(* non-vacuity of the weaker guard: a history that loses a change in the snapshot/attach gap, goes on,
+   sees the active restart, and is healed: NOT lossless, yet quiescent and equal at the end *)
+Example C13_healed_guard_satisfiable :
+  lossless cfg_real init h_healed = false /\ healed cfg_real init h_healed = true /\
+  lnk (run cfg_real init h_healed) = LStreaming /\
+  pend (run cfg_real init h_healed) = [] /\ cq (run cfg_real init h_healed) = [] /\
+  sby (run cfg_real init h_healed) = [None; None; Some rH] /\
+  act (run cfg_real init h_healed) = [None; None; Some rH].
+Proof. exact h_healed_facts. Qed.
